@@ -879,7 +879,7 @@ def signature(step, problem):
         sig["pattern"] = "rename-into-nested-unvalidated"
     elif o == "update" and op.get("ubs") and what == "nested-batch":
         sig["pattern"] = "update-batch-size-nested-reset"
-    elif o == "auto_batch_size_" and step["out"] == "raise" and what == "nested-batch" and not hollow:
+    elif o == "auto_batch_size_" and step["out"] == "raise" and what == "nested-batch":
         sig["pattern"] = "auto-batch-size-partial-on-raise"
     elif what == "nested-batch" and hollow and cls in ("bs", "write"):
         sig["pattern"] = "hollow-nested-exempt-from-batch-check" if step["out"] == "ok" else "hollow-nested-grown-before-failed-check"
